@@ -459,6 +459,16 @@ func (w *spWorld) definePolicies() {
 		DefinedType: api.DefinedType_DEFINED_TYPE_PREFIX, Name: "ps-x1",
 		Prefixes: []*api.Prefix{{IpPrefix: spPrefixes["x1"], MaskLengthMin: 24, MaskLengthMax: 24}},
 	}}))
+	vpMust(w.ss.s.AddDefinedSet(ctx, &api.AddDefinedSetRequest{DefinedSet: &api.DefinedSet{
+		DefinedType: api.DefinedType_DEFINED_TYPE_AS_PATH, Name: "as-a", List: []string{"_65001_"},
+	}}))
+	vpMust(w.ss.s.AddPolicy(ctx, &api.AddPolicyRequest{Policy: &api.Policy{
+		Name: "rejA",
+		Statements: []*api.Statement{{Name: "st-rejA", Conditions: &api.Conditions{
+			PrefixSet: &api.MatchSet{Type: api.MatchSet_TYPE_ANY, Name: "ps-x1"},
+			AsPathSet: &api.MatchSet{Type: api.MatchSet_TYPE_ANY, Name: "as-a"},
+		}, Actions: &api.Actions{RouteAction: api.RouteAction_ROUTE_ACTION_REJECT}}},
+	}}))
 	cond := &api.Conditions{PrefixSet: &api.MatchSet{Type: api.MatchSet_TYPE_ANY, Name: "ps-x1"}}
 	pols := map[string]*api.Actions{
 		"rejx1": {RouteAction: api.RouteAction_ROUTE_ACTION_REJECT},
